@@ -159,6 +159,21 @@ func props() map[string]Prop {
 			},
 			Assume: []string{"crasher and namer are the same executable (as with the real sidecar), built without PIE", "metamorphic variants keep: the first sentinel line, the PC list of the first running goroutine, and which frames follow a frame whose symbol is exactly runtime.sigpanic"},
 		},
+		{
+			ID: "C19", Level: "exploration",
+			Units: []Unit{
+				{Name: "cli", Pkg: "cmd/gotelemetry", Harness: "cmd_gotelemetry", Run: "^TestVerifC19$", Timeout: 30 * time.Minute},
+			},
+			Assume: []string{"the command is the package's main() reached by re-executing the test binary, with XDG_CONFIG_HOME/HOME redirected", "directories and symlinks whose names match the data patterns are don't-care (their targets and contents must stay)", "the current date is bracketed by two clock reads around the invocation"},
+		},
+		{
+			ID: "C16", Level: "exploration",
+			Units: []Unit{
+				{Name: "table", Pkg: ".", Harness: "root_start", Run: "^TestVerifC16Table$", Instrument: []string{"."}, Timeout: 40 * time.Minute},
+				{Name: "token", Pkg: ".", Harness: "root_start", Run: "^TestVerifC16Token$", Instrument: []string{"."}, Timeout: 40 * time.Minute},
+			},
+			Assume: []string{"the application is the test binary re-executed through an init hook; descendants are awaited by scanning /proc for a per-run id (20s watchdog => inconclusive)", "stale-token races are excluded, as in the property"},
+		},
 	}
 	m := map[string]Prop{}
 	for _, p := range ps {
